@@ -250,6 +250,7 @@ def run(ctx):
         has = [n for n in astx.walk_fn(su.node) if isinstance(n, ast.Call) and isinstance(n.func, ast.Attribute) and n.func.attr == "has_edge" and len(n.args) == 2]
         pairs = [frozenset((txt(n.args[0]), txt(n.args[1]))) for n in has]
         eqs = []
+        identity = []
         unknown = []
         ifs = [n for n in astx.walk_fn(su.node) if isinstance(n, ast.If)]
         for i in ifs:
@@ -260,6 +261,8 @@ def run(ctx):
                 if isinstance(d, ast.Compare) and len(d.ops) == 1 and isinstance(d.ops[0], ast.Eq) and isinstance(d.left, ast.Name) and isinstance(d.comparators[0], ast.Name):
                     if rejecting:
                         eqs.append(frozenset((txt(d.left), txt(d.comparators[0]))))
+                elif isinstance(d, ast.Compare) and len(d.ops) == 1 and isinstance(d.ops[0], ast.Is) and isinstance(d.left, ast.Name) and isinstance(d.comparators[0], ast.Name):
+                    identity.append((frozenset((txt(d.left), txt(d.comparators[0]))), d))
                 elif isinstance(d, ast.Call) and isinstance(d.func, ast.Attribute) and d.func.attr == "has_edge":
                     pass
                 elif "len(" in t or ".keys()" in t or "MOTIF_IDS" in t:
@@ -272,7 +275,11 @@ def run(ctx):
             o.undecided("no has_edge test of prospective edges found", su)
         else:
             missing = [p for p in pairs if p not in eqs]
-            if not missing:
+            by_identity = [(p, d) for p, d in identity if p in missing]
+            if by_identity:
+                o.violated(su, by_identity[0][1], f"`{txt(by_identity[0][1])}` compares vertex ids by object identity: equal ids held in different int objects (labels above 256, ids read "
+                                                  "from different containers) pass the test, the shared vertex is not detected and the swap creates a self-loop")
+            elif not missing:
                 o.holds(su, has[0], f"pairs tested for presence {sorted(sorted(p) for p in pairs)} are also rejected when their ends coincide")
             elif unknown:
                 o.undecided(f"tests not recognised by the rule: {unknown}", su)
